@@ -135,3 +135,47 @@ package cli
 //@   ensures color == nil ==> out(e.w) == old(out(e.w)) + "\"" + escFrom(s, 0) + "\""
 //@   ensures color != nil && global(noColor) ==> out(e.w) == old(out(e.w)) + "\"" + escFrom(s, 0) + "\""
 //@   ensures color != nil && !global(noColor) ==> out(e.w) == old(out(e.w)) + bytestr(color) + "\"" + escFrom(s, 0) + "\"" + bytestr(global(resetColor))
+
+// C12: a line break followed by exactly depth copies of the indentation character; the depth is
+// restored after every nested value, so all elements of one container are indented alike.
+//@ func (e *encoder) writeIndent()
+//@   property C12
+//@   requires e.w != nil
+//@   modifies out(e.w)
+//@   ensures out(e.w) == old(out(e.w)) + "\n" + rep(e.tab ? 9 : 32, max(e.depth, 0))
+
+//@ func (e *encoder) writeByte(b byte, color []byte)
+//@   property C12
+//@   requires e.w != nil
+//@   modifies out(e.w)
+//@   ensures color == nil ==> out(e.w) == old(out(e.w)) + str1(b)
+//@   ensures color != nil && global(noColor) ==> out(e.w) == old(out(e.w)) + str1(b)
+//@   ensures color != nil && !global(noColor) ==> out(e.w) == old(out(e.w)) + bytestr(color) + str1(b) + bytestr(global(resetColor))
+
+// (flag nosafety: the panic on a value that is not one of the JSON types and the type assertions are
+// not part of this claim; they belong to the C08 sweep)
+//@ func (e *encoder) encode(v any) (err error)
+//@   flag nosafety
+//@   property C12
+//@   requires e.w != nil
+//@   modifies *
+//@   ensures e.w == old(e.w) && e.indent == old(e.indent) && e.tab == old(e.tab)
+//@   ensures err == nil ==> e.depth == old(e.depth)
+
+//@ func (e *encoder) encodeArray(vs []any) (err error)
+//@   flag nosafety
+//@   property C12
+//@   requires e.w != nil
+//@   modifies *
+//@   loop 1 invariant e.w == old(e.w) && e.indent == old(e.indent) && e.tab == old(e.tab) && e.depth == wrap64(old(e.depth) + old(e.indent))
+//@   ensures e.w == old(e.w) && e.indent == old(e.indent) && e.tab == old(e.tab)
+//@   ensures err == nil ==> e.depth == old(e.depth)
+
+//@ func (e *encoder) encodeObject(vs map[string]any) (err error)
+//@   flag nosafety
+//@   property C12
+//@   requires e.w != nil
+//@   modifies *
+//@   loop 2 invariant e.w == old(e.w) && e.indent == old(e.indent) && e.tab == old(e.tab) && e.depth == wrap64(old(e.depth) + old(e.indent))
+//@   ensures e.w == old(e.w) && e.indent == old(e.indent) && e.tab == old(e.tab)
+//@   ensures err == nil ==> e.depth == old(e.depth)
